@@ -4,6 +4,7 @@ import (
 	"context"
 	"fmt"
 	"math/rand"
+	"strings"
 
 	"golang.org/x/text/encoding/charmap"
 	"golang.org/x/text/encoding/simplifiedchinese"
@@ -203,6 +204,19 @@ func genSplit(g *genCtx) {
 			emit(Case{"k": "split", "proto": p.proto, "req": p.req, "ref": r.Intn(256), "text": planText(r, p, total, ma)})
 		}
 	}
+	if g.part == "batch" {
+		// the parts returned by the batch encoder are judged like any other split (C09)
+		for _, proto := range []string{"CMPP", "SMPP"} {
+			for ci, content := range batchContents() {
+				for _, l := range [][]int{batchValid[proto], {batchValid[proto][0]}, {batchValid[proto][1], 7}, {7}} {
+					if !g.thorough() && (ci+len(l))%2 != 0 {
+						continue
+					}
+					emit(Case{"k": "batch", "proto": proto, "cands": l, "text": scalars(content), "ref": r.Intn(256)})
+				}
+			}
+		}
+	}
 	if g.part == "" || g.part == "parse" {
 		vals := []int{0, 1, 127, 128, 255}
 		for _, a := range vals {
@@ -246,6 +260,28 @@ func runSplit(c Case, tr *Tracer) {
 	switch caseStr(c, "k") {
 	case "split":
 		runSplitCase(c, tr)
+	case "batch":
+		proto := caseStr(c, "proto")
+		text := scalarsToString(c["text"])
+		var pdc []datacoding.ProtocolDataCoding
+		for _, x := range intsOf(c["cands"]) {
+			pdc = append(pdc, toPDC(proto, x))
+		}
+		ref := caseInt(c, "ref")
+		parts, actual, err := protocol.NewBatchDataCodingEncoder().Protocol(protocol.Protocol(proto)).Content(text, byte(ref)).DataCodings(pdc).Build(context.Background())
+		if err != nil || actual == nil {
+			return
+		}
+		coding := -1
+		switch a := actual.(type) {
+		case datacoding.CMPPDataCoding:
+			coding = int(a)
+		case datacoding.SMPPDataCoding:
+			coding = int(a)
+		}
+		lp := map[string]string{"CMPP": "cmpp", "SMPP": "smpp"}[proto]
+		// judged as a split that was asked for the coding the batch encoder chose
+		emitSplit(tr, fmt.Sprintf("%s.batch/%d", lp, coding), lp, coding, ref, text, parts, coding, false, true)
 	case "parse":
 		s := caseBytes(c, "s")
 		var key, total, index int
@@ -358,6 +394,10 @@ func emitSplit(tr *Tracer, site, proto string, req, ref int, text string, parts 
 			dec = []int{-1}
 		}
 	}
-	tr.emit(Ev{"ev": "Split", "proto": proto, "req": req, "ref": ref, "text": scalars(text), "parts": pl,
+	entry := "split"
+	if strings.Contains(site, ".batch/") {
+		entry = "batch"
+	}
+	tr.emit(Ev{"ev": "Split", "entry": entry, "proto": proto, "req": req, "ref": ref, "text": scalars(text), "parts": pl,
 		"actual": actual, "err": isErr, "can": can, "dec": dec, "site": site})
 }
